@@ -140,6 +140,21 @@ func init() {
 					one(fmt.Sprintf("%s:body[%d]:%s", ce.Name, ri, how), sc)
 				})
 			}
+			// (a2) request bodies that are not JSON objects at all
+			for ri, rq := range base.Requests {
+				if rq.Kind != "PostInbox" && rq.Kind != "PostOutbox" {
+					continue
+				}
+				for bi, raw := range []string{"null", "[]", "\"a string\"", "5", "true", " ", "{", "{\"type\":", "\xef\xbb\xbf{\"type\":\"Note\"}", "{\"type\":\"Note\",\"content\":\"\xff\"}", strings.Repeat("[", 20000), strings.Repeat("{\"a\":", 20000), "[{\"type\":\"Like\"}]"} {
+					if !thorough() && (bi+ci)%3 != 0 {
+						continue
+					}
+					sc := cloneScenario(base)
+					sc.Requests[ri].Body = nil
+					sc.Requests[ri].RawBody = raw
+					one(fmt.Sprintf("%s:rawbody[%d]:%d", ce.Name, ri, bi), sc)
+				}
+			}
 			// (b) documents the Transport returns
 			var rkeys []string
 			for u := range base.Remote {
@@ -173,7 +188,8 @@ func init() {
 					sc.Remote[u] = sim.RemoteSpec{Doc: c}
 					one(fmt.Sprintf("%s:remote[%s]:retyped=%s", ce.Name, u, other), sc)
 				}
-				for _, raw := range []string{"", "null", "[]", "\"str\"", "{", "{\"type\":5}", "{\"@context\":\"https://www.w3.org/ns/activitystreams\"}"} {
+				for _, raw := range []string{"", "null", "[]", "\"str\"", "{", "{\"type\":5}", "{\"@context\":\"https://www.w3.org/ns/activitystreams\"}",
+					" ", "5", "true", "\xef\xbb\xbf{}", "{\"type\":\"Note\",\"content\":\"\xff\xfe\"}", "{\"@context\":\"https://www.w3.org/ns/activitystreams\",\"type\":\"Person\",\"inbox\":", strings.Repeat("[", 5000)} {
 					if !keep() {
 						continue
 					}
